@@ -919,6 +919,7 @@ def _exec_case(case, classes, limit):
 
     if use_alarm:
         signal.setitimer(signal.ITIMER_PROF, limit)
+        signal.setitimer(signal.ITIMER_REAL, 15 * limit)  # wall-clock backstop: an operation that BLOCKS burns no CPU
     try:
         w = proxy = None
         try:
@@ -987,6 +988,7 @@ def _exec_case(case, classes, limit):
     finally:
         if use_alarm:
             signal.setitimer(signal.ITIMER_PROF, 0)
+            signal.setitimer(signal.ITIMER_REAL, 0)
     for sig, detail in wfail:
         fails.append(dict(signature=sig, case=_reduced(case), detail=detail))
     segs.append(dict(stream="write", lines=lines, impl=impl, seq_index=None, first_oos=None))
@@ -1056,6 +1058,8 @@ def _exec_case(case, classes, limit):
         touched = seen_eof = rewound = False  # the state of the object as far as the reference stream shows it
         if use_alarm:
             signal.setitimer(signal.ITIMER_PROF, limit)
+            signal.setitimer(signal.ITIMER_REAL, 15 * limit)
+        signal.setitimer(signal.ITIMER_REAL, 15 * limit)  # wall-clock backstop: an operation that BLOCKS burns no CPU
         try:
             for i, op in enumerate(seq):
                 k = op[0]
@@ -1144,6 +1148,8 @@ def _exec_case(case, classes, limit):
         finally:
             if use_alarm:
                 signal.setitimer(signal.ITIMER_PROF, 0)
+                signal.setitimer(signal.ITIMER_REAL, 0)
+            signal.setitimer(signal.ITIMER_REAL, 0)
         segs.append(dict(stream=stream, lines=lines, impl=impl, seq_index=si, first_oos=first_oos))
         count("seq-len:" + ("1-5" if len(seq) <= 5 else "6-25" if len(seq) <= 25 else "26-100" if len(seq) <= 100 else "101-200"))
         if n and readlike and stream == "main":
@@ -1161,6 +1167,7 @@ def _run_batch(arg):
     classes = dict(zlib=BinaryZlibFile, gzip=BinaryGzipFile)
     if threading.current_thread() is threading.main_thread():
         signal.signal(signal.SIGPROF, _on_alarm)  # CPU time of this process: a loaded machine is not a hang
+        signal.signal(signal.SIGALRM, _on_alarm)  # wall-clock backstop (15x), for operations that block
     out = dict(fails=[], divs=[], counts={}, keys=[], evals=0, traces=0)
     recs, lines = [], []
     for case in cases:
